@@ -14,7 +14,7 @@ EXPL = ("Decides, on the type-checked MIR of /repo: (1) SA-FIELDS: Generator::re
 
 
 def run(ctx):
-    cfgs = ["rel"] if ctx.tier == "quick" else ["rel", "dbg", "unsafe", "unsafe_dbg", "nodef", "fnv"]
+    cfgs = ["rel", "dbg", "unsafe"] if ctx.tier == "quick" else ["rel", "dbg", "unsafe", "unsafe_dbg", "nodef", "fnv"]
     ctx.progs(cfgs)  # build all configurations in parallel
     for c in cfgs:
         prog = ctx.prog(c)
